@@ -2,7 +2,9 @@
  * tracked-memory diffing, ndjson trace. Compiled WITHOUT -fsanitize=thread.
  * Never calls a libc function that libfiber shims (read/write/close/usleep/...).
  */
+#ifndef _GNU_SOURCE
 #define _GNU_SOURCE
+#endif
 #include "vrt.h"
 
 #include <elf.h>
@@ -149,6 +151,9 @@ static void flush_trace(void) {
 }
 
 /* ------------------------------------------------------------------ registry */
+static uint64_t g_qepoch = 1; /* bumped when a run queue (VF_WAKEIDLE field) changes or kernel events arrive */
+static int g_have_wakeidle;
+static int g_nonempty; /* number of VF_WAKEIDLE fields (run queues) whose content is not [] */
 #define MAXOBJ 512
 #define MAXFLD 2048
 typedef struct {
@@ -185,7 +190,7 @@ static int rng_cmp(const void* a, const void* b) {
 static void rebuild_ranges(void) {
   g_nrng = 0;
   for (int i = 0; i < g_nfld; i++) {
-    if (g_fld[i].dec == VD_CUSTOM || (g_fld[i].flags & VF_NOSCHED)) continue;
+    if (g_fld[i].dec == VD_CUSTOM) continue;
     if (g_obj[g_fld[i].obj].dead) continue;
     g_rng_tab[g_nrng++] = (range_t){g_fld[i].addr, g_fld[i].addr + g_fld[i].size, i, g_fld[i].obj};
   }
@@ -193,6 +198,11 @@ static void rebuild_ranges(void) {
     if (g_obj[i].dead) g_rng_tab[g_nrng++] = (range_t){g_obj[i].base, g_obj[i].base + g_obj[i].size, -1, i};
   qsort(g_rng_tab, (size_t)g_nrng, sizeof(range_t), rng_cmp);
   g_rng_dirty = 0;
+}
+static int in_any_object(uintptr_t a) {
+  for (int i = 0; i < g_nobj; i++)
+    if (a >= g_obj[i].base && a < g_obj[i].base + g_obj[i].size) return 1;
+  return 0;
 }
 /* returns range overlapping [a, a+n) or NULL (ranges do not overlap each other
    except dead objects that contain nothing live) */
@@ -285,6 +295,7 @@ void vrt_reg_obj(const char* name, void* base, size_t size, const vrt_field_t* f
     f->flags = fields[i].flags;
     f->custom = fields[i].custom;
     f->shadow[0] = 0;
+    if (f->flags & VF_WAKEIDLE) g_have_wakeidle = 1;
   }
   if (g_started) emit_init_fields(from);
 }
@@ -335,6 +346,7 @@ static int g_nthr;
 static __thread vthread_t* self;
 static int g_on; /* controlled scheduling active */
 static uint64_t g_epoch = 1;
+
 static long g_points, g_max_points = 400000;
 static int g_policy; /* 0 rand-sticky, 1 pct, 2 round-robin-ish */
 static int g_stick = 70;
@@ -391,6 +403,7 @@ static void emit_init_fields(int from) {
 static int eligible(vthread_t* t) {
   if (!t->alive || !t->started) return 0;
   if (t->wait_for >= 0 && g_thr[t->wait_for].alive) return 0;
+  if (t->yielding == Y_IDLE && g_have_wakeidle) return g_nonempty > 0 || t->yield_epoch != g_qepoch;
   if (t->yielding && t->yield_epoch == g_epoch) return 0;
   return 1;
 }
@@ -426,8 +439,8 @@ static int pick(vthread_t* cur) {
        bounded number of retries, then environment actions; else quiescent */
     for (int i = 0; i < g_nthr; i++) {
       vthread_t* t = &g_thr[i];
-      if (t->alive && t->started && t->yielding == Y_IDLE && t->lastpoll_epoch != g_epoch) {
-        t->lastpoll_epoch = g_epoch;
+      if (t->alive && t->started && t->yielding == Y_IDLE && t->lastpoll_epoch != g_epoch + g_qepoch) {
+        t->lastpoll_epoch = g_epoch + g_qepoch;
         return i;
       }
     }
@@ -465,6 +478,7 @@ static void do_env(int k) {
   buf_printf("{\"i\":%ld,\"k\":\"env\",\"a\":\"%s\"}\n", g_evno++, g_env[k].name);
   g_env[k].act();
   g_epoch++;
+  g_qepoch++;
 }
 
 /* the calling thread is at a scheduling point and holds the turn */
@@ -500,6 +514,11 @@ static void diff_and_emit(vthread_t* s, int force) {
     if (strcmp(v, f->shadow)) {
       n += (size_t)snprintf(line + n, sizeof line - n, "%s[\"%s\",\"%s\",%s]", changed ? "," : "",
                             g_obj[f->obj].name, f->fname, v);
+      if (f->flags & VF_WAKEIDLE) {
+        int was = f->shadow[0] && strcmp(f->shadow, "[]") != 0;
+        int is = strcmp(v, "[]") != 0;
+        g_nonempty += is - was;
+      }
       snprintf(f->shadow, sizeof f->shadow, "%s", v);
       changed++;
       if (!(f->flags & VF_NOEPOCH)) progress = 1;
@@ -563,6 +582,9 @@ static int point(const char* k, const void* addrp, size_t size, int iswrite, int
     if (r->fld < 0) {
       dead_access(s, r, pc, k);
       r = NULL;
+    } else if (g_fld[r->fld].flags & VF_NOSCHED) {
+      s->in_rt = 0;
+      return 1; /* thread-private field: diffed, but not a scheduling point */
     } else
       fldidx = r->fld;
   }
@@ -578,7 +600,7 @@ static int point(const char* k, const void* addrp, size_t size, int iswrite, int
     s->yield_epoch = g_epoch;
   }
   sched(s);
-  open_step(s, k, addr, pc, mo, 1, fldidx);
+  open_step(s, k, addr, pc, mo, fldidx >= 0 || !addr || in_any_object(addr), fldidx);
   if (iswrite && fldidx < 0 && addr) {
     s->uw_addr = addr;
     s->uw_size = size;
@@ -600,7 +622,10 @@ void vrt_yield_hint(void) {
   open_step(s, "cont", 0, 0, -1, 0, -1);
   s->in_rt = 0;
 }
-void vrt_progress(void) { g_epoch++; }
+void vrt_progress(void) {
+  g_epoch++;
+  g_qepoch++;
+}
 void vrt_nosched_begin(void) { if (self) self->nosched++; }
 void vrt_nosched_end(void) { if (self) self->nosched--; }
 
@@ -912,7 +937,7 @@ int epoll_wait(int epfd, struct epoll_event* ev, int max, int timeout) {
     s->in_rt = 1;
     finish_step(s);
     s->yielding = Y_IDLE;
-    s->yield_epoch = g_epoch;
+    s->yield_epoch = g_have_wakeidle ? g_qepoch : g_epoch;
     sched(s);
     open_step(s, "cont", 0, 0, -1, 0, -1);
     s->in_rt = 0;
@@ -920,6 +945,7 @@ int epoll_wait(int epfd, struct epoll_event* ev, int max, int timeout) {
     s->in_rt = 1;
     s->quiet_points = 0;
     g_epoch++;
+    g_qepoch++;
     buf_printf("{\"i\":%ld,\"t\":\"t%d\",\"k\":\"poll\",\"n\":%d}\n", g_evno++, s->idx, n);
     s->in_rt = 0;
   }
@@ -985,10 +1011,10 @@ void __tsan_init(void) {}
   void __tsan_write##N(void* a) { point("W", a, N, 1, 0, -1, PC); }                                \
   void __tsan_unaligned_read##N(void* a) { point("R", a, N, 0, 0, -1, PC); }                       \
   void __tsan_unaligned_write##N(void* a) { point("W", a, N, 1, 0, -1, PC); }                      \
-  void __tsan_volatile_read##N(void* a) { point("VR", a, N, 0, 0, -1, PC); }                       \
-  void __tsan_volatile_write##N(void* a) { point("VW", a, N, 1, 0, -1, PC); }                      \
-  void __tsan_unaligned_volatile_read##N(void* a) { point("VR", a, N, 0, 0, -1, PC); }             \
-  void __tsan_unaligned_volatile_write##N(void* a) { point("VW", a, N, 1, 0, -1, PC); }
+  void __tsan_volatile_read##N(void* a) { point("VR", a, N, 0, 1, -1, PC); }                       \
+  void __tsan_volatile_write##N(void* a) { point("VW", a, N, 1, 1, -1, PC); }                      \
+  void __tsan_unaligned_volatile_read##N(void* a) { point("VR", a, N, 0, 1, -1, PC); }             \
+  void __tsan_unaligned_volatile_write##N(void* a) { point("VW", a, N, 1, 1, -1, PC); }
 RW(1) RW(2) RW(4) RW(8) RW(16)
 void __tsan_read_range(void* a, unsigned long n) { point("R", a, n, 0, 0, -1, PC); }
 void __tsan_write_range(void* a, unsigned long n) { point("W", a, n, 1, 0, -1, PC); }
